@@ -18,7 +18,7 @@ import vcommon
 
 PROPS = ["Bee2V/C04/Props.lean", "Bee2V/C04/PropsReject.lean", "Bee2V/C04/PropsBmqv.lean", "Bee2V/C04/PropsBsts.lean", "Bee2V/C04/PropsBpace.lean",
          "Bee2V/C04/PropsBauth.lean", "Bee2V/C04/PropsTamperBmqv.lean", "Bee2V/C04/PropsTamperBsts.lean", "Bee2V/C04/PropsTamperBpace.lean",
-         "Bee2V/C04/PropsTamperBauth.lean", "Bee2V/C04/PropsDrv.lean", "Bee2V/C04/PropsBelt.lean", "Bee2V/C04/Toy.lean"]
+         "Bee2V/C04/PropsTamperBauth.lean", "Bee2V/C04/PropsDrv.lean", "Bee2V/C04/PropsDrv2.lean", "Bee2V/C04/PropsBelt.lean", "Bee2V/C04/Toy.lean"]
 TARGETS = ["Bee2V.C04.Props"] + [p[:-5].replace("/", ".") for p in PROPS[1:]]
 CORPUS = os.path.join(vcommon.VERIF, "gen", "c04_corpus.txt")
 OK, BAD_INPUT, FILE_NOT_FOUND, BAD_RNG, BAD_POINT, BAD_PARAMS, BAD_SIG, BAD_CERT, BAD_LOGIC, AUTH = 0, 109, 202, 304, 401, 502, 510, 514, 517, 521
@@ -868,3 +868,85 @@ def replay(ctx, path):
     print("op       %s\nimpl     %s\nexpected %s" % (line[:1500], shown[:1500], want))
     print("property %s on the current tree" % ("VIOLATED" if bad else "holds"))
     return 1 if bad else 0
+
+
+# ------------------------------------------------------------------ C19: a quick-sized stream for the configuration replay
+def c19_stream():
+    """(harness, driver, fn, uses_bash) for props/C19.py: fn(ctx, exe, w) -> op lines.  About 20 honest scenarios (every
+    protocol x curve with rotating flags, BAUTH with kcb on l = 192 / 256, a third through RunA/RunB, the BMQV s = 0
+    witness and a constructed one, hellos of unequal lengths, a certificate > 512 octets) and 4 lines of tampered re-runs
+    built from the messages of `exe` (the reference build): about 80 protocol runs (<= 400) -- C19 feeds the stream to the
+    Lean model in ONE process, and the model's affine arithmetic needs 30-100 ms per scalar multiplication.  Everything is
+    octet-level: nothing depends on the machine-word size `w`."""
+
+    class _Shim:
+        def __init__(self, ctx):
+            self.rng, self.tier, self.seed = ctx.rng, "quick", ctx.seed
+
+    def fn(ctx, exe, w):
+        def run_c(lines):
+            out, err, rc = ctx.run_lines(exe, lines)
+            if rc != 0 or len(out) != len(lines):
+                raise RuntimeError("c04 harness failed while building the C19 stream: " + err[-300:])
+            return out
+
+        cvs = curves()
+        g = Gen(_Shim(ctx), cvs, run_c)
+        rng = ctx.rng
+        scs = []
+        # the Lean model needs 30-100 ms per scalar multiplication and C19 runs it in one process: one flag setting per
+        # (protocol, curve), rotating through the admissible settings; BAUTH with kcb on l = 192 and l = 256
+        for ci, cv in enumerate(cvs):
+            for pi, P in enumerate(("bmqv", "bsts", "bpace", "bauth")):
+                fs = g.flagsets(P)
+                kca, kcb = (1, 1) if (P == "bauth" and ci > 0) else fs[(ci + pi) % len(fs)]
+                s = g.base(P, cv, kca, kcb, tag="flags")
+                scs.append(s if (P == "bauth" or (ci + pi) % 3) else s.with_mode("r"))
+        # hellos of unequal lengths (incl. only one of them), every protocol
+        for i, (la, lb) in enumerate([(5, 16), (None, 9), (17, 0), (33, 32)]):
+            P = ("bauth", "bmqv", "bpace", "bsts")[i % 4]
+            cv = cvs[(i + 1) % 3]
+            kca, kcb = g.flagsets(P)[-1]
+            s = g.base(P, cv, kca, kcb, ha=None if la is None else g.rb(la), hb=None if lb is None else g.rb(lb), tag="hello")
+            scs.append(s if (P == "bauth" or i % 2) else s.with_mode("r"))
+        # multi-block M2 / M3 through the drivers
+        scs.append(g.base("bsts", cvs[rng.randrange(3)], 1, 1, certlen=(520 + rng.randrange(40), 530 + rng.randrange(40)), mode="r", tag="longcert"))
+        # constructed BMQV run with s = 0
+        cv = cvs[1]
+        ua, ub, dd = g.scalar(cv), g.scalar(cv), g.scalar(cv)
+        Va, Vb = cv.mul(ua, cv.G), cv.mul(ub, cv.G)
+        t = int.from_bytes(unh(run_c(["hash " + hx(cv.n2b(Va[0]) + cv.n2b(Vb[0]))])[0])[: cv.no // 2], "little")
+        s = g.base("bmqv", cv, 1, 1, keys=(ua * pow((1 << cv.l) + t, -1, cv.q) % cv.q, dd), tag="s=0")
+        s.ta, s.tb = cv.n2b(ua), cv.n2b(ub)
+        scs.append(s)
+        lines = corpus_lines() + [s.head() for s in scs]
+        # tampered re-runs: one light scenario per protocol (+ BSTS through the drivers), <= 30 tampers each
+        picks, seen = [], set()
+        for s in scs:
+            key = (s.P, s.mode)
+            if s.tag == "flags" and key not in seen and s.mode == "s" and (s.P != "bauth" or (s.kcb and s.cv.ci > 0)):
+                seen.add(key)
+                picks.append(s)
+        outs = run_c([s.head() for s in picks])
+        budget = max(0, 400 - len(lines)) // max(1, len(picks)) - 1
+        for s, o in zip(picks, outs):
+            hon = split_line(o)[0]
+            if s.mode == "s":
+                d = parse_steps(hon)
+                msgs = {i + 1: unh(st[2]) for i, st in enumerate(d["steps"]) if st[1] == 0 and i + 1 < s.nsteps()}
+            else:
+                d = parse_run(hon)
+                msgs = {}
+                for i, m in enumerate(d.get("ba", [])):
+                    msgs[1 + 2 * i] = unh(m)
+                for i, m in enumerate(d.get("ab", [])):
+                    msgs[2 + 2 * i] = unh(m)
+            ts = g.tampers_for(s, msgs, False)
+            rng.shuffle(ts)
+            ts = ts[:min(14, MAXT, budget)]
+            if ts:
+                lines.append(s.head() + " " + " ".join(t[0] for t in ts))
+        lines += ["kdf %s %s %d" % (hx(g.rb(32)), hx(g.rb(64)), n) for n in (0, 1, 2 ** 40)]
+        return lines
+
+    return ("harness/c04.c", "drv_c04", fn, False)
